@@ -228,6 +228,27 @@ def run(world, rep, tier, only=None):
                    (reader, " of the scan pass" if fname == "do_one_pass" else "", [(c, n.line) for c, n, b in ce]))
     rep.floor("C06.d unbounded walks over the log", n_d, 3)
 
+    # ------------------------------------------------------------------ C06.e no second release of a field left dangling
+    # Error paths release what they built.  A release that leaves the pointer in its structure (free(), the bitmap
+    # and channel destructors - unlike ext2fs_free_mem(&p), which zeroes p) must not be followed by another release
+    # of the same field, neither later in the function nor by the caller's own clean-up after the call returned.
+    n_e = 0
+    seen_e = set()
+    for pn in ("e2fsck", "debugfs", "tune2fs", "resize2fs", "e2image", "e2undo"):
+        prog = world.program(pn, plain=True)
+        fns = [f for f in prog.functions() if f.key not in seen_e]
+        seen_e |= {f.key for f in fns}
+        n1, hits = double_releases(prog, fns)
+        n_e += n1
+        for (f, first, g, second) in hits:
+            rep.ob("C06.e", site(g, "no second release of %s.%s" % tuple(T.last_field(T.strip(arg(second, 0))))), False,
+                   "`%s` (%s:%d) leaves the pointer in place and `%s` (%s:%d) releases it again" %
+                   (first.text()[:40], f.name, first.line, second.text()[:40], g.name, second.line))
+    rep.floor("C06.e releases that leave the pointer in its structure", n_e, 10)
+    if not any(o[0] == "C06.e" and not o[2] for o in rep.obligations):
+        rep.ob("C06.e", "*:*:releases that leave the pointer in place are final", True,
+               "%d such releases examined; none is followed by a second release of the same field" % n_e)
+
     # C06.b cursor lifetime in the rbtree bitmap — shared with C16.b
     try:
         from rules import C16
